@@ -600,6 +600,12 @@ def do_codegen(codegen, *mvs) -> CodegenOutput:
     res = {bin: res[bin] if isinstance(res, dict) else getattr(res, canon)
            for canon, bin in algebra.canon2bin.items() if bin in res.keys()}
 
+    if algebra.graded and res:
+        # In graded mode results have to consist of complete grades, so pad with zeros.
+        grades = tuple(sorted({format(k, 'b').count('1') for k in res}))
+        zero = '0' if any(isinstance(v, str) for v in res.values()) else 0
+        res = {k: res.get(k, zero) for k in algebra.indices_for_grades[grades]}
+
     if not algebra.cse and any(isinstance(v, str) for v in res.values()):
         return func_builder(res, *mvs, funcname=funcname)
 
